@@ -136,7 +136,12 @@ class Degree:
                 elif isinstance(s.op, ast.Mult) and cur and v and cur[0] == "s" and v[0] == "s":
                     env[s.target.id] = ("s", self.dadd(cur[1], v[1]))
         elif isinstance(s, ast.If):
-            self.ev(s.test, env, fi)
+            n_err = len(self.errors)
+            try:
+                self.ev(s.test, env, fi)
+            except DegErr:
+                pass
+            del self.errors[n_err:]
             e1, e2 = dict(env), dict(env)
             self.block(s.body, e1, fi, rets)
             self.block(s.orelse, e2, fi, rets)
@@ -215,9 +220,16 @@ class Degree:
             l, r = self.ev(e.left, env, fi), self.ev(e.right, env, fi)
             return self.binop(e, l, r)
         if isinstance(e, (ast.Compare, ast.BoolOp)):
+            # what is only compared (a length against the absolute tolerance, by design) does not feed a measure: degree
+            # mismatches found while evaluating the operands of a comparison are not reported
+            n_err = len(self.errors)
             for c in ast.iter_child_nodes(e):
                 if isinstance(c, ast.expr):
-                    self.ev(c, env, fi)
+                    try:
+                        self.ev(c, env, fi)
+                    except DegErr:
+                        pass
+            del self.errors[n_err:]
             return ("s", 0)
         if isinstance(e, (ast.Tuple, ast.List)):
             ks = [self.ev(x, env, fi) for x in e.elts]
@@ -430,7 +442,7 @@ def r61(ctx, res):
     res.count("functions with a degree summary", len(dg.memo))
 
 
-def _acc_loop(fi: FunctionInfo, coll_attr: str, elem_call: str, elem_ok=None, iter_texts=None) -> Tuple[bool, str]:
+def _acc_loop(fi: FunctionInfo, coll_attr: str, elem_call: str, elem_ok=None, iter_texts=None, _depth: int = 0) -> Tuple[bool, str]:
     """acc = 0; for x in self.<coll>: acc += x.<elem_call>(); return acc   (no condition, full collection);
     elem_ok(expr, var) replaces the test "expr is <var>.<elem_call>()" when given"""
     sn = fi.self_name or fi.params[0]
@@ -489,6 +501,35 @@ def _acc_loop(fi: FunctionInfo, coll_attr: str, elem_call: str, elem_ok=None, it
                 if not ok_call:
                     return False, "sums `%s`, expected %s of each element" % (txt(v), elem_call)
                 return True, "sum(<element>.%s() ...) over all of %s.%s" % (elem_call, sn, coll_attr)
+    # delegation:  return self.other_measure()  -- the same sum under another name (length() -> perimeter())
+    if iter_texts is None and _depth < 3:
+        rets_ = [r for r in walk_local(fi.node) if isinstance(r, ast.Return) and r.value is not None]
+        if len(rets_) == 1 and isinstance(rets_[0].value, ast.Call) and isinstance(rets_[0].value.func, ast.Attribute) \
+                and not rets_[0].value.args and isinstance(rets_[0].value.func.value, ast.Name) and rets_[0].value.func.value.id == sn \
+                and fi.cls is not None:
+            m = fi.cls.lookup(rets_[0].value.func.attr)
+            if m is not None and m is not fi:
+                ok, why = _acc_loop(m, coll_attr, elem_call, elem_ok, None, _depth + 1)
+                return ok, "%s(): %s" % (m.short, why)
+    # edge lengths over the closed ring of vertices:  for p, q in <pair generator>(self.points): acc += p.distance(q)
+    if iter_texts is None and coll_attr == "segments" and elem_call == "length":
+        from ..cycles import pair_generator
+        for lp in [x for x in walk_local(fi.node) if isinstance(x, ast.For)]:
+            it = lp.iter
+            if isinstance(it, ast.Call) and isinstance(it.func, ast.Name) and len(it.args) == 1 and txt(it.args[0]) == "%s.points" % sn \
+                    and isinstance(lp.target, ast.Tuple) and len(lp.target.elts) == 2 and all(isinstance(x, ast.Name) for x in lp.target.elts):
+                b = fi.resolve(it.func.id)
+                if b is not None and b.kind == "func" and pair_generator(b.target.node) and len(lp.body) == 1:
+                    p_, q_ = (x.id for x in lp.target.elts)
+                    b0 = lp.body[0]
+                    v = b0.value if isinstance(b0, ast.AugAssign) and isinstance(b0.op, ast.Add) and isinstance(b0.target, ast.Name) else None
+                    if v is not None and txt(v) in ("%s.distance(%s)" % (p_, q_), "%s.distance(%s)" % (q_, p_), "Vector(%s, %s).length()" % (p_, q_),
+                                                      "Vector(%s, %s).length()" % (q_, p_), "Segment(%s, %s).length()" % (p_, q_)):
+                        acc = b0.target.id
+                        inits = [a for a in walk_local(fi.node) if isinstance(a, ast.Assign) and txt(a.targets[0]) == acc]
+                        rets = [r for r in walk_local(fi.node) if isinstance(r, ast.Return) and r.value is not None and txt(r.value) == acc]
+                        if len(inits) == 1 and const_num(inits[0].value) == 0 and rets:
+                            return True, "`%s += |%s %s|` over the closed ring of %s.points (%s)" % (acc, p_, q_, sn, b.target.short)
     # the accumulation lives in a one-parameter helper that is handed the whole collection:  return _total(self.<coll>)
     if iter_texts is None:
         for r in walk_local(fi.node):
@@ -542,6 +583,12 @@ def _cone_formula(fi: FunctionInfo, e: ast.AST, base: str, apex: str) -> Tuple[b
     return ok, "normal form %s * %s" % (c, " * ".join(atoms))
 
 
+def _method_delegation(fi: FunctionInfo, mname: str) -> bool:
+    """every result return of the one-parameter function fi is `param.<mname>()`"""
+    rets = [r for r in walk_local(fi.node) if isinstance(r, ast.Return) and r.value is not None]
+    return bool(rets) and all(txt(r.value) == "%s.%s()" % (fi.params[0], mname) for r in rets)
+
+
 def _volume_accumulation(fi: FunctionInfo) -> Tuple[bool, str]:
     """volume of a polyhedron: the sum of volume() over pyramid_set, or -- the same pyramids written out, pyramid_set holding
     exactly one Pyramid(face, center_point) per face (R6.3) -- the sum over all faces of 1/3 * distance(center, face) * area"""
@@ -567,7 +614,11 @@ def r63(ctx, res):
                                    ("volume", "calc.volume", "pyramid_set", "volume")):
         fi = repo.fn(short, mod)
         n += 1
-        ok, why = _acc_loop(fi, coll, call) if call != "volume" else _volume_accumulation(fi)
+        if short == "volume" and _method_delegation(fi, "volume"):
+            # volume(x) = x.volume(): the function form is the method form (checked in its own row)
+            ok, why = True, "delegates to the volume() method of its argument"
+        else:
+            ok, why = _acc_loop(fi, coll, call) if call != "volume" else _volume_accumulation(fi)
         res.ob("R6.3", fi.where(), "%s sums %s over %s" % (short, call, coll), ok, why)
         if not ok:
             res.violation("R6.3", fi, fi.node, "%s does not accumulate %s() over the whole of %s: %s" % (short, call, coll, why),
@@ -679,6 +730,9 @@ def r64(ctx, res):
     for short, mod, pyr in (("Pyramid.volume", None, None), ("volume", "calc.volume", None)):
         fi = repo.fn(short, mod)
         pyr = fi.params[0]
+        if short == "volume" and _method_delegation(fi, "volume"):
+            res.ob("R6.4", fi.where(), "volume = 1/3 * height * base area", True, "volume(x) returns x.volume(): the formula is Pyramid.volume's")
+            continue
         defs = {}
         for a in walk_local(fi.node):
             if isinstance(a, ast.Assign) and isinstance(a.targets[0], ast.Name):
@@ -714,6 +768,8 @@ def r64(ctx, res):
     # volume(x) on a polyhedron sums the same pyramids as x.volume()
     a = _volume_accumulation(repo.fn("ConvexPolyhedron.volume"))
     b = _volume_accumulation(repo.fn("volume", "calc.volume"))
+    if _method_delegation(repo.fn("volume", "calc.volume"), "volume"):
+        b = (True, "volume(x) is x.volume()")
     ok = a[0] and b[0]
     res.ob("R6.4", repo.fn("volume", "calc.volume").where(), "volume(x) and x.volume() sum the same pyramids", ok,
            "both accumulate over the pyramids of the faces (%s / %s)" % (a[1][:60], b[1][:60]) if ok else "%s / %s" % (a[1], b[1]))
@@ -732,7 +788,9 @@ def r64(ctx, res):
         from ..astutil import expand_locals
         import copy as _copy
         r0 = _copy.copy(rets[0])
-        r0.value = expand_locals(h.node, rets[0].value, h.params)  # locals (`base = self.convex_polygon`) read as their definitions
+        from ..astutil import inline_module_calls
+        # locals (`base = self.convex_polygon`) read as their definitions, small module helpers (`_apex_depth(base, apex)`) as their bodies
+        r0.value = inline_module_calls(h, expand_locals(h.node, rets[0].value, h.params))
         rets = [r0]
         defs = {}
     ok = False
